@@ -124,7 +124,22 @@ func runC16(c *fw.Case) (o fw.Outcome) {
 		}
 	}
 	imsi := plmn + fmt.Sprintf("%0*d", msinLen, msin)
-	k, op, opc := hexs(rbytes(r, 16)), hexs(rbytes(r, 16)), hexs(rbytes(r, 16))
+	credClass := func() string { // credential STRINGS as configuration files carry them: any 32 hex digits are a value, also all zeros / all f
+		s := hexs(rbytes(r, 16))
+		switch r.Intn(10) {
+		case 0:
+			return strings.Repeat("0", 32)
+		case 1:
+			return pick(r, strings.Repeat("f", 32), strings.Repeat("F", 32))
+		case 2:
+			z := 1 + r.Intn(31)
+			return strings.Repeat("0", z) + s[z:]
+		case 3:
+			return strings.ToUpper(s)
+		}
+		return s
+	}
+	k, op, opc := credClass(), credClass(), credClass()
 	switch r.Intn(3) {
 	case 0:
 		op = ""
